@@ -313,6 +313,29 @@ def observe(cfg, want):
             obs["flags"]["bad_term_rejected"] = True
         P.solvePDE(v_r, terms_for(v_r, g1))
         obs["r_retry"] = lift_sol(np.asarray(v_r._value), xs, "r_retry")
+        # multi-step history with a per-cell alpha FIELD kept as one CellVariable object: a step, then alpha is given
+        # new values in place (value assignment + apply_BCs, as a coefficient that depends on the solution is
+        # refreshed in a time loop), then a second step with the same dt: the second step is the backward-Euler step
+        # with the NEW alpha in the matrix and in the right-hand side
+        al = P.CellVariable(c.m, alpha_arr * np.ones(tuple(c.dims)))
+        v_a = P.CellVariable(c.m, old.copy(), bc_with(cfg, "c", c.m, d))
+        sp_g = lambda gam: list(sp) + [P.constantSourceTerm(P.CellVariable(c.m, gam))]
+        P.solvePDE(v_a, [P.transientTerm(v_a, dt, al)] + sp_g(g1))
+        mid_a = np.asarray(v_a.value).copy()
+        alpha2 = 2.0 * alpha_arr * np.ones(tuple(c.dims)) + 1.0 + (np.arange(int(np.prod(c.dims))).reshape(tuple(c.dims)) % 2)
+        al.value = alpha2
+        al.apply_BCs()
+        for a in range(d):                     # the target x*2 belongs to the boundary data c2 (as in C12_History)
+            for s_ in SIDES[a]:
+                side = getattr(v_a.BCs, s_)
+                side.c = to_float_array(cfg["bc"][s_]["c2"]).reshape(side.c.shape)
+        if np.all(np.isfinite(mid_a)) and np.max(np.abs(mid_a)) < 1e6:
+            v2a = np.zeros(int(np.prod(full)))
+            if A is not None:
+                v2a = v2a + A @ xs2.ravel()
+            g_a = interior(v2a.reshape(full)) + alpha2 * (interior(xs2) - mid_a) / dt
+            P.solvePDE(v_a, [P.transientTerm(v_a, dt, al)] + sp_g(g_a))
+            obs["r_history_alpha"] = lift_sol(np.asarray(v_a._value), xs2, "r_history_alpha")
         # multi-step history with a boundary-KIND switch: one side is made periodic, a step is taken, the side
         # is switched back (nothing else is touched), and the next step must be the step of the configured
         # (non-periodic) problem again: target x* from the state the first step left behind
